@@ -1063,6 +1063,20 @@ def _emit_fn(asm, out, unit, kv, block, default_props):
         kind, kwpos, ob, cb = lps[n]
         txt = ''
         inv_k = 0
+        # `if_before "<text>" <clause>`: a clause about a local that is declared before the loop is kept only while
+        # that declaration is still there (a refactoring that moves or drops the local must not leave the function
+        # uningestible: without the clause the function is still verified, against the same postconditions)
+        specs2 = []
+        for k, x in specs:
+            mb = re.match(r'if_before\s+"((?:[^"\\]|\\.)*)"\s+(.*)', x)
+            if mb:
+                if _norm(mb.group(1)) in _norm(body[:kwpos]):
+                    specs2.append((k, mb.group(2)))
+                else:
+                    asm.dropped.append('%s: loop %d clause about `%s` skipped (no such statement before the loop)' % (fname, n, mb.group(1)))
+            else:
+                specs2.append((k, x))
+        specs = specs2
         dec = [x for k, x in specs if k == 'decreases']
         for k, x in specs:
             if k == 'iter':
